@@ -10,6 +10,7 @@ import (
 
 	res "github.com/jirenius/go-res"
 
+	"verif/sim/model"
 	"verif/sim/sched"
 	"verif/sim/simconn"
 )
@@ -169,7 +170,11 @@ func (e *Engine) qeCallback(q *QEInfo, qr res.QueryRequest) {
 		case "y":
 			e.Sim.Yield("handler", "qreq")
 		case "model":
-			qr.Model(map[string]interface{}{"q": sid})
+			if pad := model.PadFor(sid); pad != "" {
+				qr.Model(map[string]interface{}{"q": sid, "pad": pad})
+			} else {
+				qr.Model(map[string]interface{}{"q": sid})
+			}
 		case "coll":
 			qr.Collection([]interface{}{"q", sid})
 		case "chg":
